@@ -207,7 +207,7 @@ PROPS["C05"] = {
 }
 
 PROPS["C33"] = {
-    "standin": ["standin_validator"],
+    "standin": ["standin_validator", "standin_schema_e2e"],
     "verus": ["matches"],
     "kani": ["validator"],
     "level": "proof",
